@@ -328,6 +328,46 @@ Theorem C11_page_walk_by_class_refuted_nonblank_title_byte :
 Proof. exact page_walk_class_refuted_nonblank_title_byte. Qed.
 Print Assumptions C11_page_walk_by_class_refuted_nonblank_title_byte.
 
+(* ------------------------------------------------------------------------------------------------ filtered listings *)
+(* Vocabulary: [ftitles]/[names] list the WHOLE title (class, blank, text; Big5 bytes >= 0x80 included) and the name of
+   every board in the order of the index walked; [tf]/[kw] are the title filter and the keyword filter of
+   ptt.LoadGeneralBoards (keywordsNotInBoard: a non-empty title filter decides alone, else a non-empty keyword must be in
+   the title or in the name, no filter lists everything); [vis_filter ftitles names tf kw i] = board i is not vacated and
+   not filtered out; [cstrcasestr] = types.Cstrcasestr (byte-wise, only 'A'..'Z' folded; reading: C11_filter_meaning).
+   Paging a filtered by-name listing through its next-cursor: for every sorted table of byte strings whose names are
+   distinct up to case, EVERY title, EVERY filter (any bytes), every page size k >= 1 and both directions, the walk
+   terminates and its pages concatenate to the positions of exactly the boards the filter keeps, each once, in order,
+   in ceil(V/k) pages. In particular the state of anything else (the boards' article indexes, cached article counts)
+   is not an input of the listing: no board is dropped and no page loses its cursor because of it. *)
+Theorem C11_page_walk_filtered : forall ftitles names tf kw k asc,
+  forallb bytes_ok names = true -> sorted_by less_name names = true -> distinct_names names = true -> (1 <= k)%nat ->
+  page_walk_filtered ftitles names tf kw k asc =
+  let V := filter (vis_filter ftitles names tf kw) (if asc then zseq 0 (length names) else rev (zseq 0 (length names))) in
+  Ok (pages_of (length V) k, map (fun i => i + 1) V).
+Proof. exact page_walk_filtered_spec. Qed.
+Print Assumptions C11_page_walk_filtered.
+
+(* ... and by class ([title5 t] = Title[:5] of the whole title t), under the hypotheses of C11_page_walk_by_class *)
+Theorem C11_page_walk_by_class_filtered : forall ftitles names tf kw k asc,
+  length ftitles = length names -> Forall (fun t => nth 4 t 0 = 32 \/ nth 4 t 0 = 0) (map title5 ftitles) ->
+  forallb bytes_ok (map title5 ftitles) = true -> forallb bytes_ok names = true ->
+  sorted_by less_class (combine (map title5 ftitles) names) = true ->
+  distinct_class (combine (map title5 ftitles) names) = true -> (1 <= k)%nat ->
+  page_walk_class_filtered ftitles names tf kw k asc =
+  let V := filter (vis_filter ftitles names tf kw) (if asc then zseq 0 (length names) else rev (zseq 0 (length names))) in
+  Ok (pages_of (length V) k, map (fun i => i + 1) V).
+Proof. exact page_walk_class_filtered_spec. Qed.
+Print Assumptions C11_page_walk_by_class_filtered.
+
+(* reading of the filter: for a non-empty filter without NUL, types.Cstrcasestr finds it (>= 0) exactly when the filter,
+   with 'A'..'Z' folded byte by byte, occurs in the C string, folded the same way; a byte >= 0x80 is never folded *)
+Theorem C11_filter_meaning :
+  (forall s p, p <> [] -> Forall (fun b => b <> 0) p ->
+     (0 <= cstrcasestr s p <-> exists pre post, cprefix (map tolower s) = pre ++ map tolower p ++ post)) /\
+  (forall b, 91 <= b -> tolower b = b).
+Proof. exact (conj filter_meaning tolower_high). Qed.
+Print Assumptions C11_filter_meaning.
+
 (* ------------------------------------------------------------------------------------------------ field width of the cursor *)
 (* the by-name next-cursor made from any visible board resolves to exactly that board, in both directions: for every
    sorted table of byte strings whose names are distinct up to case — names of every length up to the full width of the
